@@ -1008,6 +1008,11 @@ func ModifyRegister(register *object.Register, in ast.Node) (ast.Node, bool) {
 				return nil, false
 			}
 		}
+	case *ast.MapLiteral:
+		// The variable written as a key more than once ({n: a, n: b}): the keys are one register node now, and one entry.
+		if len(in.Order) != len(in.Pairs) {
+			return nil, false
+		}
 	}
 	return in, true
 }
